@@ -1788,6 +1788,9 @@ def run(ctx):
     order = sorted((i for i, code in enumerate(codes) if code),
                    key=lambda i: (codes[i] < 2, len(cases[i].get("ops", []))))
     nfail = sum(1 for i in order if codes[i] >= 2)
+    # at most two scenarios of interleaved requests among the six reported cases (they sort first: no ops)
+    inter = [i for i in order if cases[i]["type"] == "intern"]
+    order = [i for i in order if i not in set(inter[2:])]
     for i in order[:6]:
         code = codes[i]
         c = cases[i]
